@@ -80,6 +80,11 @@ func runDownFamily(s *Sim, prop string) {
 		for k := 0; k < nsrc; k++ {
 			sp.Sources = append(sp.Sources, fmt.Sprintf("node-%d", k+1))
 		}
+		if t.Bool("dup-source-filter", 1, 5) {
+			// two filters may name the same source node (e.g. with different data filters)
+			sp.Sources = append(sp.Sources, sp.Sources[0])
+			s.Stat("env.duplicate-source-in-filters")
+		}
 		npre := Pick(t, "npre", 0, 0, 2, 5)
 		for k := 0; k < npre; k++ {
 			sp.PreIDs = append(sp.PreIDs, dataID(k))
